@@ -836,7 +836,29 @@ func (a *Activation) val(v ssa.Value) Val {
 		}
 		unsup("constant %s", v.String())
 	case *ssa.Function:
-		return scalar(a.typ(v.Type()), x.funcRef(v))
+		ref := x.funcRef(v)
+		if extName(v) == "cmp.Compare" {
+			// A-STD: cmp.Compare is a strict weak order on (non-NaN) ordered types
+			t := a.typ(v.Type())
+			if sig, ok := t.Underlying().(*types.Signature); ok && sig.Params().Len() == 2 {
+				ks := c.sortOf(sig.Params().At(0).Type())
+				key := "swo_axiom_" + ref + "_" + ks
+				if _, done := c.funs[key]; !done {
+					c.funs[key] = "axiom"
+					fv := scalar(t, ref)
+					xa, ya, za := c.boundVar("x"), c.boundVar("y"), c.boundVar("z")
+					kt := sig.Params().At(0).Type()
+					cxy := x.applyFunc(fv, []Val{scalar(kt, xa), scalar(kt, ya)}).S
+					cyx := x.applyFunc(fv, []Val{scalar(kt, ya), scalar(kt, xa)}).S
+					cyz := x.applyFunc(fv, []Val{scalar(kt, ya), scalar(kt, za)}).S
+					cxz := x.applyFunc(fv, []Val{scalar(kt, xa), scalar(kt, za)}).S
+					c.Assume(fmt.Sprintf("(forall ((%s %s) (%s %s)) (= (< %s 0) (> %s 0)))", xa, ks, ya, ks, cxy, cyx))
+					c.Assume(fmt.Sprintf("(forall ((%s %s) (%s %s) (%s %s)) (=> (and (<= %s 0) (<= %s 0)) (<= %s 0)))", xa, ks, ya, ks, za, ks, cxy, cyz, cxz))
+					x.note("A-STD: cmp.Compare is assumed to be a strict weak order (no NaN keys)")
+				}
+			}
+		}
+		return scalar(a.typ(v.Type()), ref)
 	case *ssa.Global:
 		// package-level variables are treated as immutable unknown constants (no function under contract assigns one)
 		t := a.typ(v.Type()).Underlying().(*types.Pointer).Elem()
@@ -1534,6 +1556,11 @@ func (a *Activation) loopSpec(li *loopInfo) *LoopSpec {
 // varsAt resolves source-level variable names to SSA values visible at the head of block b
 // (atEnd: at the end of b). The latest DebugRef / named phi on the dominator chain wins.
 func (a *Activation) varsAt(b *ssa.BasicBlock, atEnd bool, override map[ssa.Value]Val) func(string) (Val, bool) {
+	return a.varsAtUpto(b, atEnd, override, nil)
+}
+
+// varsAtUpto: like varsAt(b, true, ...) but only instructions of b before `upto` count.
+func (a *Activation) varsAtUpto(b *ssa.BasicBlock, atEnd bool, override map[ssa.Value]Val, upto ssa.Instruction) func(string) (Val, bool) {
 	type cand struct {
 		v    ssa.Value
 		rank int
@@ -1559,6 +1586,9 @@ func (a *Activation) varsAt(b *ssa.BasicBlock, atEnd bool, override map[ssa.Valu
 		}
 		d := domDepth(blk) * 100000
 		for i, ins := range blk.Instrs {
+			if same && upto != nil && ins == upto {
+				break
+			}
 			switch ins := ins.(type) {
 			case *ssa.Phi:
 				if ins.Comment != "" {
